@@ -4,13 +4,19 @@ import (
 	"fmt"
 	"math/big"
 
+	"github.com/consensys/gnark-crypto/ecc"
+	"github.com/consensys/gnark/constraint"
 	"github.com/consensys/gnark/frontend"
+	"github.com/consensys/gnark/frontend/cs/r1cs"
+	"github.com/consensys/gnark/frontend/cs/scs"
 	gl "github.com/wormhole-foundation/example-near-light-client/goldilocks"
 	"github.com/wormhole-foundation/example-near-light-client/verifier"
 
 	"verifharness/circ"
 	"verifharness/engine"
 	"verifharness/fw"
+	"verifharness/gadget"
+	"verifharness/harn"
 	"verifharness/inst"
 )
 
@@ -96,6 +102,10 @@ func init() {
 					}
 				}
 				cs = append(cs, fw.Case{ID: "A_testdata/shadow/k=1", Kind: "shadow", P: map[string]any{"inst": "A_testdata", "k": 1}})
+				cs = append(cs, fw.Case{ID: "A_testdata/compiled/r1cs/k=1", Kind: "compiled", P: map[string]any{"inst": "A_testdata", "k": 1, "sys": "r1cs"}})
+				if !ctx.Quick {
+					cs = append(cs, fw.Case{ID: "A_testdata/compiled/scs/k=1", Kind: "compiled", P: map[string]any{"inst": "A_testdata", "k": 1, "sys": "scs"}})
+				}
 				return cs
 			},
 			Exec: func(ctx *fw.Ctx, c fw.Case) fw.Outcome {
@@ -162,6 +172,79 @@ func init() {
 					a, b := r.Intn(16), r.Intn(16)
 					limbs[a] = new(big.Int).Add(truth[a], new(big.Int).Mul(bigP, big.NewInt(int64(1+r.Intn(1000)))))
 					limbs[b] = new(big.Int).Add(truth[b], new(big.Int).Mul(bigP, big.NewInt(int64(1+r.Intn(1000)))))
+				case "compiled":
+					// the wrapper compiled with a real builder (commitment-based range checks):
+					// the honest assignment is solvable, forged limbs / values are not
+					var nb frontend.NewBuilder = r1cs.NewBuilder
+					if c.Str("sys") == "scs" {
+						nb = scs.NewBuilder
+					}
+					var ccs constraint.ConstraintSystem
+					var cerr error
+					harn.Protect(func() {
+						ccs, cerr = frontend.Compile(ecc.BN254.ScalarField(), nb, c03Build(in, truth, packLimbs(truth)))
+					})
+					if cerr != nil {
+						return fw.Violate("compile_fails_on_valid_template:"+c.Str("sys"), trunc(cerr.Error(), 200))
+					}
+					try := func(l []*big.Int, v [4]*big.Int) error {
+						w, err := frontend.NewWitness(c03Build(in, l, v), ecc.BN254.ScalarField())
+						if err != nil {
+							return err
+						}
+						return ccs.IsSolved(w, gadget.SolveOpts(ccs)...)
+					}
+					if err := try(truth, packLimbs(truth)); err != nil {
+						return fw.Violate("compiled_system_rejects_honest_public_values:"+c.Str("sys"), trunc(err.Error(), 200))
+					}
+					o.Inc("compiled_" + c.Str("sys") + "_honest_solved")
+					cp := func() []*big.Int {
+						l := make([]*big.Int, 16)
+						for i := range l {
+							l[i] = new(big.Int).Set(truth[i])
+						}
+						return l
+					}
+					type forged struct {
+						name string
+						l    []*big.Int
+						v    [4]*big.Int
+					}
+					var fs []forged
+					for _, i := range []int{0, 3, r.Intn(16), 15} {
+						l := cp()
+						l[i] = new(big.Int).Add(l[i], bigP)
+						fs = append(fs, forged{fmt.Sprintf("limb%d+p", i), l, packLimbs(l)})
+					}
+					{
+						l := cp()
+						for i := range l {
+							l[i] = new(big.Int).Add(l[i], bigP)
+						}
+						fs = append(fs, forged{"all+p", l, packLimbs(l)})
+						l2 := cp()
+						l2[4] = new(big.Int).Mod(new(big.Int).Sub(l2[4], big.NewInt(1)), bigR)
+						l2[5] = new(big.Int).Add(l2[5], pow2(32))
+						fs = append(fs, forged{"borrow", l2, packLimbs(l2)})
+						v := packLimbs(truth)
+						v[1] = new(big.Int).Add(v[1], big.NewInt(1))
+						fs = append(fs, forged{"V1+1", cp(), v})
+						v2 := packLimbs(truth)
+						v2[2] = new(big.Int).Add(v2[2], pow2(128))
+						fs = append(fs, forged{"V2+2^128", cp(), v2})
+						v3 := packLimbs(truth)
+						v3[0] = new(big.Int).Add(v3[0], new(big.Int).Lsh(big.NewInt(0x2f3), 240))
+						fs = append(fs, forged{"V0+k*2^240", cp(), v3})
+					}
+					for _, f := range fs {
+						if err := try(f.l, f.v); err == nil {
+							return fw.Violate("compiled_system_accepts_forged_public_values:"+c.Str("sys"), "forged assignment "+f.name+" is solvable")
+						}
+						o.Inc("compiled_" + c.Str("sys") + "_forged_rejected")
+					}
+					o.Events += ccs.GetNbConstraints()
+					o.Sample = map[string]any{"system": c.Str("sys"), "constraints": ccs.GetNbConstraints(), "forged": len(fs)}
+					return o
 				case "shadow":
 					rep, results, err := shadowFixpoint(engine.Native, func() frontend.Circuit { return in.Clone().CircuitFixed() }, 10)
 					for _, rr := range results {
